@@ -8,7 +8,7 @@ PY = "/venv/bin/python"
 
 CHECKS = {
     "C01": dict(cat="exploration",
-        text="Held on the generated executions only: real GeminiServerProtocol driven by scripted event orders on a virtual clock (L1, incl. the production wiring captured from start_server on hostile capsules) and through both real TLS layers in-process (L2); a response-stream automaton judges every connection (exactly one well-formed header, body only for 2x, closed, nothing after).",
+        text="Held on the generated executions only: real GeminiServerProtocol driven by scripted event orders on a virtual clock (L1, incl. the production wiring captured from start_server on hostile capsules) and through both real TLS layers in-process (L2); a response-stream automaton judges every connection (exactly one well-formed header, body only for 2x, closed, nothing after). Handler/middleware outcomes cover 16 exception types (incl. CancelledError, exceptions whose __str__ raises), hostile messages, wrongly typed response fields and message-less refusals.",
         note="FakeTransport models CPython 3.12 sslproto transport semantics; reach bounded by the generators (evidence: input_class / outcome / state_tuples).",
         tech="runtime monitoring: response-stream automaton over recorded connection traces (virtual-time protocol simulator + in-process TLS sandwich)"),
     "C02": dict(cat="exploration",
@@ -16,7 +16,7 @@ CHECKS = {
         note="Containment oracle uses os.path.realpath/commonpath; availability only required for symlink-free, UTF-8 named files (literal spelling only for pchar names).",
         tech="runtime monitoring: sentinel-token oracle on responses + audit-hook trail of open/listdir (L0 handler calls, L3 live sample)"),
     "C03": dict(cat="exploration",
-        text="Held on the explored histories: TOFUDatabase histories (exhaustive to depth 4/5) and GeminiClient get/upload/redirect histories against scripted TLS peers whose certificates are swapped (RSA/EC/Ed25519 and DER-tampered certificates the X.509 parser rejects), exhaustive to depth 3/4 over a 12-operation alphabet plus random long histories; after every step outcome and known_hosts are compared with an abstract pin map.",
+        text="Held on the explored histories: TOFUDatabase histories (exhaustive to depth 4/5) and GeminiClient get/upload/redirect histories against scripted TLS peers whose certificates are swapped (RSA/EC/Ed25519 and DER-tampered certificates the X.509 parser rejects), exhaustive to depth 3/4 over a 12-operation alphabet plus random long histories; after every step outcome and known_hosts are compared with an abstract pin map. Histories include replace-mode imports, export->import restores and calls inside `async with`; a separate scenario keeps 2-4 calls in flight towards an unpinned host whose peer rotates its certificate per connection.",
         note="Pin key = (lower-cased host, port) as derived from the URL; TOFU-off runs only check that the store stays untouched.",
         tech="runtime monitoring: step-by-step comparison of real outcomes and the sqlite table with a reference pin-map model over live TLS histories"),
     "C04": dict(cat="exploration",
@@ -28,7 +28,7 @@ CHECKS = {
         note="Rule prefixes are directory-level; capsules have no symlinks; over-blocking judged only for canonical spellings.",
         tech="runtime monitoring: sentinel-identified resource vs first-matching-rule policy model, real TLS client certificates (L2 sandwich, L3 live)"),
     "C06": dict(cat="exploration",
-        text="Held on the executions produced: every response stream decrypted by a real TLS client (in-process sandwich on both backends with ciphertext segmentations and a bounded pipe towards readers stalling up to 29 virtual seconds through the captured start_server wiring, plus live loopback servers with four reader profiles) is compared byte for byte with header+body and must end in a TLS close.",
+        text="Held on the executions produced: every response stream decrypted by a real TLS client (in-process sandwich on both backends with ciphertext segmentations and a bounded pipe towards readers stalling up to 29 virtual seconds through the captured start_server wiring, plus live loopback servers with four reader profiles) is compared byte for byte with header+body and must end in a TLS close. Static files (incl. text with BOM, CRLF, lone CR, Unicode separators, NUL; per-location and server-wide size limits from TOML) are compared with their bytes on disk.",
         note="Client side is CPython ssl/OpenSSL 3.0; sizes are the listed boundary set plus random ones, not every length; CPython's own 30 s ssl_shutdown_timeout bounds how long a stalled reader can be served.",
         tech="runtime monitoring: byte-exact stream comparison at the client boundary (position-counter bodies) on L2 sandwich and L3 live sockets"),
     "C07": dict(cat="exploration",
@@ -48,15 +48,15 @@ CHECKS = {
         note="Time is read only through middleware.time.monotonic (patched to the virtual clock); dyadic rates make float arithmetic exact, other rates use a 1e-9 grey band.",
         tech="runtime monitoring: online comparison with an exact-arithmetic reference bucket + offline window-bound checker on recorded decision histories (virtual clock)"),
     "C11": dict(cat="exploration",
-        text="Held on the explored situations: GeminiClient get/upload/delete against scripted TLS peers in pinned/unpinned/changed/unparsable/redirect-to-changed situations with eager, lazy and late-reading peers; the peer's count of decrypted application bytes after draining to EOF and the client-side order of transport writes versus verify() returns are both monitored.",
+        text="Held on the explored situations: GeminiClient get/upload/delete against scripted TLS peers in pinned/unpinned/changed/unparsable/redirect-to-changed situations with eager, lazy and late-reading peers; the peer's count of decrypted application bytes after draining to EOF and the client-side order of transport writes versus verify() returns are both monitored. Client configurations: plain TOFU, CA verification + TOFU (private CA that signed both certificates), TOFU with a client certificate; host spelled as address / lower / mixed / upper case; client reuse, `async with`, concurrent calls, store faults.",
         note="Writes are observed at asyncio.sslproto._SSLProtocolTransport.write.",
         tech="runtime monitoring: peer-side byte counting + client-side event-order monitor (write vs verify_return) on live TLS connections"),
     "C12": dict(cat="fault_enumeration",
-        text="Every SQL statement boundary (execute/commit on every connection, plus after-commit) of trust/verify/revoke/clear/import(merge|replace) is enumerated both as a crash point (operation runs in a forked child killed with os._exit at the boundary, file reopened) and as an injected OperationalError; import files carry each defect kind at every entry position; export->import round trips hostile host names. The table must equal the before or the after state.",
+        text="Every SQL statement boundary (execute/commit on every connection, plus after-commit) of trust/verify/revoke/clear/import(merge|replace) is enumerated both as a crash point (operation runs in a forked child killed with os._exit at the boundary, file reopened) and as an injected OperationalError; import files carry each defect kind at every entry position; export->import round trips hostile host names. The table must equal the before or the after state. The command-line entry points (tofu import [--replace] / clear / revoke through typer's CliRunner) get the same enumeration; a store of mutually look-alike names (SQL wildcards, case, Unicode) checks that single-host operations touch exactly the named rows.",
         note="Crash points are statement boundaries (SQLite's byte-level commit atomicity is trusted); last_seen excluded.",
         tech="runtime monitoring with fault injection: exhaustive statement-boundary crash/error enumeration, before/after table-dump oracle"),
     "C13": dict(cat="exploration",
-        text="Held on the generated streams: both client protocol classes on a fake transport (all segmentations of short streams, cuts of long ones, close/reset at every prefix length, the 10 MiB cap boundary) and GeminiClient over TLS against peers that close, reset or stall at each stage; results are compared with an independent response-stream parser, and a pending future after connection end is a hang.",
+        text="Held on the generated streams: both client protocol classes on a fake transport (all segmentations of short streams, cuts of long ones, close/reset at every prefix length, the 10 MiB cap boundary) and GeminiClient over TLS against peers that close, reset or stall at each stage; results are compared with an independent response-stream parser, and a pending future after connection end is a hang. Declared charsets range over every codec label Python knows (text encodings or not); raw mode (decode_text=False) and 2-3 overlapping calls on one client are included.",
         note="Grey status tokens and malformed charset parameters are undecided; L3 timeouts are watchdogs, verdicts use event order.",
         tech="runtime monitoring: independent response parser as oracle + future-resolution monitor (L1 virtual loop, L3 live peers)"),
     "C14": dict(cat="fault_enumeration",
@@ -68,7 +68,7 @@ CHECKS = {
         note="Stdlib handshake bound is CPython's 60 s; after close CPython waits up to 30 s for the peer's close_notify (checked finite).",
         tech="runtime monitoring: virtual-time bounded-progress check (close time, quiescence with open transport) on L1/L2, live sample L3"),
     "C16": dict(cat="exploration",
-        text="Held on the explored graphs: GeminiClient.get with TOFU against three scripted TLS servers implementing redirect graphs (all graphs for N<=2 over 15 target forms, chains/cycles up to length 8, random N<=8) x max_redirects 0..6 x follow on/off; peers' connection logs and a verify() counter are compared with the harness's walk of the graph.",
+        text="Held on the explored graphs: GeminiClient.get with TOFU against three scripted TLS servers implementing redirect graphs (all graphs for N<=2 over 15 target forms, chains/cycles up to length 8, random N<=8) x max_redirects 0..6 x follow on/off; peers' connection logs and a verify() counter are compared with the harness's walk of the graph. Seven fetches in flight on one client (chains at and over the limit, cycle, self-loop) check that each keeps its own count and history.",
         note="Relative/empty/upper-case-scheme/oversize/malformed targets may yield an error or the unchanged 3x.",
         tech="runtime monitoring: connection-log and verify-call monitors vs reference redirect-graph walk (live TLS peers)"),
     "C17": dict(cat="exploration",
@@ -76,7 +76,7 @@ CHECKS = {
         note="Requests outside the must-accept grammar and empty queries are grey.",
         tech="runtime monitoring: audit-hook socket monitor + upstream/decoy connection logs vs mapping oracle (live sockets)"),
     "C18": dict(cat="fault_enumeration",
-        text="Raw TLS client -> start_server proxy (0.5 s location timeout) -> scripted upstream: well-formed responses of every status class, media type and declared charset must arrive byte-identical; each fault stage (refused, TLS failure, close/reset before/mid header, garbage headers, reset mid-body, stalls at each stage, oversize body) must yield exactly one well-formed 43 and a server that keeps serving; redirects to a decoy are relayed, early-disconnecting clients tolerated.",
+        text="Raw TLS client -> start_server proxy (short location timeout for the stall stages, generous ones elsewhere) -> scripted upstream: well-formed responses of every status class, media type and declared charset must arrive byte-identical; each fault stage (refused, TLS failure, close/reset before/mid header, garbage headers, reset mid-body, stalls at each stage, oversize body) must yield exactly one well-formed 43 and a server that keeps serving; redirects to a decoy are relayed, early-disconnecting clients tolerated; 2-4 downstream requests in flight through one location must each get their own relay (or their own 43).",
         note="A cleanly truncated 2x body cannot be told from a complete one; upstream metas with bare CR/LF or >1024 bytes may be 43 or sanitised.",
         tech="runtime monitoring with fault injection: downstream/upstream byte comparison and response automaton under scripted upstream faults (live sockets)"),
     "C19": dict(cat="exploration",
@@ -84,7 +84,7 @@ CHECKS = {
         note="Host comparison case-insensitive; '' == '/' for paths; empty query == no query.",
         tech="runtime monitoring: round-trip/idempotence oracle against an independent URI recogniser (L0 calls, L3 live client/server)"),
     "C20": dict(cat="exploration",
-        text="Held on the probed cells: real handshakes offering exactly one protocol version (TLS 1.0-1.3, SECLEVEL 0) against all four start_server construction paths and both factory functions with client-cert request on/off; client contexts (TOFU, CA, GeminiClient.get) against peers capped at TLS 1.0/1.1; plaintext and random bytes to every server variant. Each refusal is paired with a control peer proving the old version is otherwise negotiable here.",
+        text="Held on the probed cells: real handshakes offering exactly one protocol version (TLS 1.0-1.3, SECLEVEL 0) against all four start_server construction paths and both factory functions with client-cert request on/off; client contexts (TOFU, CA, GeminiClient.get) against peers capped at TLS 1.0/1.1; plaintext and random bytes to every server variant, and (virtual time, both TLS layers) peers that send nothing / a few bytes / partial records and then wait past every timeout - everything ever written to the raw socket is inspected. Each refusal is paired with a control peer proving the old version is otherwise negotiable here.",
         note="SSLv3 cannot be offered by this interpreter (recorded as unreachable).",
         tech="runtime monitoring: control-validated handshake probing and plaintext probes on live sockets"),
 }
